@@ -136,6 +136,25 @@ class Real:
         else:
             self.c = K[kind](1, n)
 
+    def dirty(self, rng):
+        """an EARLIER use of the same object with ANOTHER weighting (weights where this case has none and the reverse):
+        `init` must start from the arguments it receives, whatever an earlier node left in the buffers.  Produces no
+        output; the model is not told (its `init` is a function of its arguments only)."""
+        n = self.y.shape[0]
+        if self.w is None or rng.random() < 0.3:
+            w2 = [rng.randint(2, 5) for _ in range(n)]
+        else:
+            w2 = None
+        self.dirty_with(w2)
+        return w2
+
+    def dirty_with(self, w2):
+        n = self.y.shape[0]
+        w2 = None if w2 is None else self.np.array(w2, dtype=self.np.float64)
+        self._dirty_w = w2                      # kept alive: the criterion may hold a view
+        self.C._test_criterion_init(self.c, self.y, w2, float(n if w2 is None else w2.sum()), self.samples, 0, n)
+        self.C._test_criterion_update(self.c, max(1, n // 2))
+
     def run(self, ops):
         """same op script as the Lean driver; returns the list of outputs of the query ops"""
         C, c, out = self.C, self.c, []
@@ -281,7 +300,10 @@ def correspond(ctx):
                         if kind == "lin":
                             ops += ["B"]
                         real = Real(kind, n, X, y, w, samples, wN)
+                        other = rng.random() < 0.4
                         try:
+                            if other:
+                                real.dirty(rng)
                             out = real.run(ops)
                         except Exception as e:  # pragma: no cover - reported as a disagreement
                             out = [("ERR", [type(e).__name__])]
@@ -295,6 +317,8 @@ def correspond(ctx):
                         corr.hit("kind=%s" % kind, len(poss))
                         corr.hit("n=%d" % n, len(poss))
                         corr.hit("stale-object" if stale else "fresh-object", len(poss))
+                        if other:
+                            corr.hit("object used before with another weighting", len(poss))
                         corr.hit("weighted" if w is not None else "unit-weights", len(poss))
                         corr.hit("start>0" if start > 0 else "start=0", len(poss))
                         if w is not None and 0 in w:
@@ -437,6 +461,8 @@ def criterion_oracle(inp):
            "lin": "LinearRegressorCriterion"}[kind]
     real = Real(kind, n, X, y, w, samples, wN)
     pre = list(inp.get("pre", []))
+    if "earlier_weights" in inp:       # the same object served an earlier node under ANOTHER weighting ("unit" = none)
+        real.dirty_with(None if inp["earlier_weights"] == "unit" else inp["earlier_weights"])
     ops = pre + ["i%d:%d" % (start, end), "V", "I", "u%d" % pos, "C", "M"]
     out = [v for _, v in real.run(ops)][-4:]
     ww = [1] * n if w is None else w
@@ -661,6 +687,9 @@ def search(ctx, hints):
                     pre = stale_prefix(rng, n, w, samples_) if rng.random() < 0.5 else []
                     inp = {"kind": kind, "n": n, "y": y, "w": w, "samples": samples_, "wN": wN, "X": X,
                            "start": start, "pos": pos, "end": end, "pre": pre, "oracle": "criterion"}
+                    if rng.random() < 0.4:
+                        inp["earlier_weights"] = "unit" if (w is not None and rng.random() < 0.7) else \
+                            [rng.randint(2, 5) for _ in range(n)]
                     evals += 1
                     nontriv.add((kind, n, rep, start, pos, end))
                     for key, what, obs, req in criterion_oracle(inp):
